@@ -30,22 +30,12 @@ Proof.
     + cbn [length]. f_equal. exact I3.
 Qed.
 
-Section SonicLCComplete.
+Section EvSub.
   Context {FO : FieldOps} {FL : FieldLaws FO}.
-  Add Field Ffield48 : FL_field.
-  Variables (g gam h beta : F) (n m : nat) (ck : SCKey) (vk : SVKey).
-  Hypothesis Kg : sck_g ck = gpowers g 1 beta n.
-  Hypothesis Kgg : sck_gamma ck = gpowers gam 1 beta m.
-  Hypothesis V1 : vk_g (svk_vk vk) = g.
-  Hypothesis V2 : vk_gamma_g (svk_vk vk) = gam.
-  Hypothesis V3 : vk_h (svk_vk vk) = h.
-  Hypothesis V4 : vk_beta_h (svk_vk vk) = h * beta.
+  Add Field Ffield48a : FL_field.
 
   Lemma qkey_cmp_eq : forall a b : qkey, qkey_cmp a b = Eq <-> a = b.
   Proof. apply cmp_pair_eq; [apply N.compare_eq_iff|apply FL_cmp]. Qed.
-
-  Definition sl_agree (lm : list (N * (LPoly * Rand * F))) (cm : list (N * (F * option nat))) : Prop :=
-    forall l lp r c, lookup N.compare l lm = Some (lp, r, c) -> lookup N.compare l cm = Some (c, lp_bound lp).
 
   (* what the verifier does to the claimed values while processing one combination *)
   Fixpoint ev_sub (lab : N) (terms : lc) (ev : evals) : evals :=
@@ -54,19 +44,6 @@ Section SonicLCComplete.
     | (c, TOne) :: t => ev_sub lab t (map (fun kv => if N.eqb (fst (fst kv)) lab then (fst kv, snd kv - c) else kv) ev)
     | (_, TPoly _) :: t => ev_sub lab t ev
     end.
-
-  Lemma verifier_follows_prover lm cm lab num : sl_agree lm cm -> forall terms a a' ev,
-    slc_prover_loop lm num terms a = Ok a' ->
-    slc_verifier_loop cm lab num terms ev (sa_bound a) (sa_comm a) = Ok (ev_sub lab terms ev, sa_bound a', sa_comm a').
-  Proof.
-    intros Ha. induction terms as [|[c0 [|l]] t IH]; intros a a' ev H; cbn [slc_prover_loop] in H; cbn [slc_verifier_loop ev_sub].
-    - injection H as <-. reflexivity.
-    - exact (IH a a' _ H).
-    - destruct (lookup N.compare l lm) as [[[lp st] c]|] eqn:El; [|discriminate].
-      rewrite (Ha l lp st c El). cbn [fst snd].
-      destruct (bound_policy num c0 (lp_bound lp) (sa_bound a)) as [b| |]; cbn [bind] in H |- *; try discriminate.
-      exact (IH _ a' ev H).
-  Qed.
 
   Lemma ev_sub_lookup lab : forall terms ev l pt,
     lookup qkey_cmp (l, pt) (ev_sub lab terms ev)
@@ -107,6 +84,35 @@ Section SonicLCComplete.
       assert (Hne : N.eqb lab l0 = false).
       { apply N.eqb_neq. intros ->. apply Hn. apply in_map_iff. exists (l0, terms). split; [reflexivity|exact Hin]. }
       rewrite Hne. destruct (lookup qkey_cmp (lab, pt) ev); reflexivity.
+  Qed.
+
+End EvSub.
+
+Section SonicLCComplete.
+  Context {FO : FieldOps} {FL : FieldLaws FO}.
+  Add Field Ffield48 : FL_field.
+  Variables (g gam h beta : F) (n m : nat) (ck : SCKey) (vk : SVKey).
+  Hypothesis Kg : sck_g ck = gpowers g 1 beta n.
+  Hypothesis Kgg : sck_gamma ck = gpowers gam 1 beta m.
+  Hypothesis V1 : vk_g (svk_vk vk) = g.
+  Hypothesis V2 : vk_gamma_g (svk_vk vk) = gam.
+  Hypothesis V3 : vk_h (svk_vk vk) = h.
+  Hypothesis V4 : vk_beta_h (svk_vk vk) = h * beta.
+
+  Definition sl_agree (lm : list (N * (LPoly * Rand * F))) (cm : list (N * (F * option nat))) : Prop :=
+    forall l lp r c, lookup N.compare l lm = Some (lp, r, c) -> lookup N.compare l cm = Some (c, lp_bound lp).
+
+  Lemma verifier_follows_prover lm cm lab num : sl_agree lm cm -> forall terms a a' ev,
+    slc_prover_loop lm num terms a = Ok a' ->
+    slc_verifier_loop cm lab num terms ev (sa_bound a) (sa_comm a) = Ok (ev_sub lab terms ev, sa_bound a', sa_comm a').
+  Proof.
+    intros Ha. induction terms as [|[c0 [|l]] t IH]; intros a a' ev H; cbn [slc_prover_loop] in H; cbn [slc_verifier_loop ev_sub].
+    - injection H as <-. reflexivity.
+    - exact (IH a a' _ H).
+    - destruct (lookup N.compare l lm) as [[[lp st] c]|] eqn:El; [|discriminate].
+      rewrite (Ha l lp st c El). cbn [fst snd].
+      destruct (bound_policy num c0 (lp_bound lp) (sa_bound a)) as [b| |]; cbn [bind] in H |- *; try discriminate.
+      exact (IH _ a' ev H).
   Qed.
 
   Lemma verifier_all_follows lm cm : sl_agree lm cm -> forall lcs trip ev,
